@@ -101,6 +101,9 @@ impl Callback for Balances {
                 .write_all(format!("{};{}\n", address, balance).as_bytes())?;
         }
 
+        // Make sure everything is on disk before the file gets its final name
+        self.writer.flush()?;
+
         #[cfg(rbp_verif)]
         crate::verif::ev("rename", &format!("\"file\":\"balances.csv.tmp\",\"to\":\"balances-{}-{}.csv\",\"buffered\":{}", self.start_height, self.end_height, self.writer.buffer().len()));
         fs::rename(
